@@ -20,7 +20,7 @@ from checks import common
 
 PROPERTY = "C09"
 LEVEL = "exploration"
-MODES = ["O0"]
+MODES = ["O0", "O1"]      # junk handling must not depend on assert statements either
 TIERS = {"quick": {"runs": 1600, "wall": 55}, "thorough": {"runs": 25000, "wall": 1500}}
 RULE = ("plan = base directory (1..7 well-formed PELs) + 1..4 junk items (torn/lost/flip/garbage/foreign copies "
         "of the plan's own PELs, biased into headers, length fields and the callout area) + 0..2 subdirectories "
@@ -32,7 +32,7 @@ COMPONENTS = {"real": ["pel.peltool.peltool.main() in-process, all decoders"],
               "stub": ["stored-file damage applied at rest", "directory enumeration order (SimFS)", "stdout/stderr capture"]}
 ASSUMPTIONS = ["a damaged copy that a mode still decodes is legitimately reported and is excluded from the equality relation for that mode (it still must not break well-formedness of stdout)",
                "stdout of --json is not required to be JSON (its product is files); the set and bytes of output files are compared instead",
-               "interpreter at optimisation level 0 (C05 covers -O)"]
+               "half of the plans run in `python -O` interpreters"]
 PROBES = ["leftover_output_file", "class_search_junk", "junk_other_creator", "junk:torn", "junk:flip", "junk:lost", "junk:garbage", "junk:foreign", "subdir", "junk_still_decodable",
           "junk_shares_eid", "mode:-j", "mode:--src-exclude", "hex"]
 
